@@ -298,6 +298,14 @@ def run(pid, tier, seed):
                                                           "event": {k: events[i][k] for k in events[i] if k not in ("msgs",)}})
         C.report_violation(pid, rp)
         viol += 1
+    # beyond the property: the default line format as an automaton (QtlPretty); a deviation is reported as a note, not
+    # as a violation of C19 (the statement does not fix the pretty layout)
+    from . import pretty
+    bd = C.ensure_harness("asan", ["drv_pattern"])
+    p_acc, p_fail, p_info = pretty.campaign(bd, rnd, 60 if tier == "quick" else 1500, work)
+    if p_fail:
+        print(f"NOTE property=C19 the PrettyFormatter automaton (spec/QtlPretty.tla) rejected {len(p_fail)} of {p_info['runs']} runs "
+              "- the default line layout changed", flush=True)
     nontrivial = sum(1 for o in owners if isinstance(o, IniScenario) and (o.rules or o.rx["kind"] != "none"))
     C.write_evidence(pid, tier, seed, "model_checking", {
         "states": mc.distinct + mcp.distinct, "transitions": mc.generated + mcp.generated,
@@ -311,6 +319,7 @@ def run(pid, tier, seed):
                 "QMessageLogger; install/restore/foreign histories of <= 9 steps with two Logger objects; non-trivial = the configuration "
                 "filters something (or it is a handler history)",
         "exhaustive": False,
+        "beyond_the_property": {"pretty_formatter_automaton": dict(p_info, accepted_runs=p_acc, rejected_runs=len(p_fail))},
         "ini_children": n_ini, "one_line_children": n_one, "handler_histories": n_hist, "rejected": len(rejected),
     }, time.time() - t0, viol, [
         "TLC and the Json/IOUtils community modules are trusted",
